@@ -35,6 +35,32 @@ From PB Require Import Model.PyPrims Generated.PyFuncs Proofs.PyGenLib Proofs.Py
 From PB Require Model.Phragmen.
 Open Scope Q_scope.
 '''
+hdr_inst = '''(* Props/C15gen.v -- property C15 (instance predicates agree with brute force over subsets), the REGENERATED tie:
+   total_cost, Instance.is_feasible / is_exhaustive (with and without available_projects) / is_trivial /
+   budget_allocations, max_budget_allocation_cardinality and utils.powerset are translated from the Python source of
+   pabutools/election/instance.py and pabutools/utils.py on every run (Generated/PyFuncs.v, harness/vharness/pytrans.py;
+   trusted base in DESIGN.md, section C10gen/TieGen and its C15gen/C18gen addendum); the theorems say that what the source
+   says NOW is the hand-written model of Model/InstanceM.v (Base/ListExt.v for powerset) that the theorems of
+   Props/C15.v are about.  max_budget_allocation_cost builds a MIP model: it stays an oracle (not translated).
+   Only statements closed by exact; proofs in Proofs/PyGenInstP.v. *)
+From Coq Require Import String.
+From PB Require Import Model.PyPrims Generated.PyFuncs Proofs.PyGenLib Proofs.PyGenInstP.
+Open Scope Q_scope.
+'''
+hdr_stats = '''(* Props/C18gen.v -- property C18 (statistics equal their textbook definitions), the REGENERATED tie:
+   utils.mean_generator (both element shapes) and gini_coefficient, and the statistics of pabutools/analysis/
+   {votersatisfaction,profileproperties,instanceproperties}.py that fit the translated fragment are translated from
+   the Python source on every run (Generated/PyFuncs.v, harness/vharness/pytrans.py); the theorems say that what the
+   source says NOW is the hand-written model of Model/Analysis.v that the theorems of Props/C18.v (textbook
+   definitions of Spec/Stats.v) are about -- and, for the incremental mean, directly the weighted mean of Spec/Stats.v.
+   A result of type option: None = the function raises.  The float-only statistics (numpy arrays filled by index,
+   np.std, math.ceil) are listed in gen_correspondence_only and stay with the C18 correspondence.
+   Only statements closed by exact; proofs in Proofs/PyGenStatsP.v. *)
+From Coq Require Import String.
+From PB Require Import Model.PyPrims Generated.PyFuncs Proofs.PyGenLib Proofs.PyGenStatsP.
+From PB Require Model.Analysis Spec.Stats.
+Open Scope Q_scope.
+'''
 def emit(path, hdr, prefix, ls, skip=()):
     L = [hdr]
     for n, st in ls:
@@ -46,4 +72,7 @@ def emit(path, hdr, prefix, ls, skip=()):
     return len(L) - 1
 print(emit(C + "/theories/Props/C10gen.v", hdr_sat, "C10gen_", lemmas(C + "/theories/Proofs/PyGenSatP.v")),
       emit(C + "/theories/Props/TieGen.v", hdr_tie, "TieGen_", lemmas(C + "/theories/Proofs/PyGenTieP.v"),
-           skip=("isort_leb_ext",)))
+           skip=("isort_leb_ext",)),
+      emit(C + "/theories/Props/C15gen.v", hdr_inst, "C15gen_", lemmas(C + "/theories/Proofs/PyGenInstP.v")),
+      emit(C + "/theories/Props/C18gen.v", hdr_stats, "C18gen_", [x for x in lemmas(C + "/theories/Proofs/PyGenStatsP.v")
+           if x[0].startswith("gen_")]))
